@@ -56,6 +56,12 @@ theorem C28_tgen_limits :
 theorem C28_tgen_fin_reserve : Extracted.finReservePad = 30 ∧ 8 + 20 + 2 ≤ Extracted.finReservePad := by decide
 
 theorem C02_tgen_oracle_ops : op_hasConflict_ts = "<=" ∧ op_cleanup_ts = "<=" := by decide
+/-- `oracle.discardAtOrBelow` returns `o.discardTs` in managed mode (first `return`, under
+    `if o.isManaged`) and `o.readMark.DoneUntil()` otherwise — exactly `Oracle.discardAtOrBelow` of
+    `BadgerModel/Oracle.lean`; an offset or another watermark at either site changes the string -/
+theorem C34_tgen_discardAtOrBelow :
+    ret_discardAtOrBelow = "o.discardTs | o.readMark.DoneUntil()" ∧
+    ord_discardAtOrBelow_managed_first = "before" := by decide
 theorem C03_tgen_txn_bits : Extracted.bitTxn = Badger.bitTxn ∧ Extracted.bitFinTxn = Badger.bitFinTxn := by decide
 theorem C36_tgen_bits : Extracted.bitTxn = Badger.bitTxn := by decide
 theorem C37_tgen_threshold_ops : op_writeToLSM_threshold = "<" ∧ op_modify_inmem_vallen = ">" := by decide
